@@ -574,6 +574,9 @@ func runC15(c *mon.Ctx) {
 	rngV := c.Rand("values")
 	c15exps = append(c15exps, randBig(rngV, two256), randBig(rngV, new(big.Int).Lsh(bigOne, 64)),
 		new(big.Int).Lsh(bigOne, 64), new(big.Int).Sub(new(big.Int).Lsh(bigOne, 64), bigOne), new(big.Int).Add(new(big.Int).Lsh(bigOne, 128), bigOne), big.NewInt(65537))
+	rm1 := new(big.Int).Sub(r, bigOne)
+	c15exps = append(c15exps, new(big.Int).Lsh(rm1, 1), new(big.Int).Mul(rm1, big.NewInt(5)), new(big.Int).Lsh(rm1, 200), new(big.Int).Lsh(r, 1), new(big.Int).Mul(r, rm1),
+		new(big.Int).Add(new(big.Int).Lsh(bigOne, 300), bigOne), new(big.Int).Add(new(big.Int).Lsh(rm1, 1), bigOne), new(big.Int).Sub(new(big.Int).Lsh(rm1, 1), bigOne))
 
 	noadxBuild := c.Config["path"] == "noadx-build"
 	if noadxBuild && fr.VerifSupportAdx() {
